@@ -32,3 +32,12 @@ PROPS = {
                             "checked here by the harness oracle only"],
     },
 }
+
+# further properties: one file per property under tools/props.d/Cxx.py defining PROP = {...}
+import os as _os, glob as _glob, importlib.util as _ilu
+for _f in sorted(_glob.glob(_os.path.join(_os.path.dirname(_os.path.abspath(__file__)), "props.d", "C*.py"))):
+    _spec = _ilu.spec_from_file_location("prop_" + _os.path.basename(_f)[:-3], _f)
+    _m = _ilu.module_from_spec(_spec)
+    _m.TB_COMMON = TB_COMMON
+    _spec.loader.exec_module(_m)
+    PROPS[_os.path.basename(_f)[:-3]] = _m.PROP
